@@ -378,7 +378,11 @@ def _run_pretty(pretty_fn, value, ctx, trailing_comment=None):
                         type(value).__name__, fnname
                     )
                 )
-                doc = pretty_fn(value, ctx)
+                try:
+                    doc = pretty_fn(value, ctx)
+                except Exception as e:
+                    _warn_about_bad_printer(pretty_fn, value, exc=e)
+                    doc = repr(value)
             else:
                 _warn_about_bad_printer(pretty_fn, value, exc=e)
                 doc = repr(value)
